@@ -3,6 +3,7 @@ re-created behind the back of a handle that has used them, SQLite reuses the row
 NAME it was made against."""
 
 CFG = {
+    "extra_props": ["Ties"],
     "gens": ["C07H"],
     "feature": "c07h",
     "model_exe": "askar_model_c07h",
